@@ -300,7 +300,7 @@ Proof.
   revert s acc. induction f; intros s acc H; cbn [find_close] in H; [discriminate|].
   destruct (split_once """" s) as [[lft r0]|] eqn:E; [|discriminate].
   apply split_once_spec in E.
-  destruct (negb (ends_with "\" lft) || ends_with "\\" lft).
+  destruct (Nat.even (trailing_backslashes lft)).
   - inversion H; subst. exists (lft ++ """"). rewrite app_assoc_s. reflexivity.
   - apply IHf in H. destruct H as [m Hm]. exists (lft ++ """" ++ m). rewrite Hm in E.
     rewrite E. rewrite !app_assoc_s. reflexivity.
@@ -399,7 +399,7 @@ Proof.
         rewrite Hr, drop_open_app.
         apply (one_line_drop_mid (out ++ s2) "/*" (t ++ x)).
         rewrite app_assoc_s, <- Hr. exact Hinv. }
-      destruct (negb (starts_with "#include" s2) && negb asm).
+      destruct (negb (starts_with "#include" (trim_start s2)) && negb asm).
       * destruct (split_once """" s2) as [[lft z]|] eqn:E3.
         -- destruct (find_close _ _ _) as [[body rest]|] eqn:Efc in H.
            2:{ pose proof (Hunt _ _ _ _ E2 E3) as Hu. inversion H; subst. exact Hu. }
@@ -410,7 +410,7 @@ Proof.
         -- eapply IHf; eauto.
       * eapply IHf; eauto.
     + (* no comment *)
-      destruct (negb (starts_with "#include" pre) && negb asm).
+      destruct (negb (starts_with "#include" (trim_start pre)) && negb asm).
       * destruct (split_once """" pre) as [[lft z]|] eqn:E3.
         -- destruct (find_close _ _ _) as [[body rest]|] eqn:Efc in H.
            2:{ pose proof (Hunt pre "" _ _ (eq_sym (app_empty_r pre)) E3) as Hu.
@@ -783,13 +783,24 @@ Proof.
     auto.
 Qed.
 
+Lemma nlfree_split_blank (s b t : string) :
+  split_blank s = Some (b, t) -> nlfree s = true -> nlfree b = true /\ nlfree t = true.
+Proof.
+  revert b t. induction s as [|a s IH]; intros b t E H; cbn [split_blank] in E; [discriminate|].
+  cbn [nlfree] in H. destruct (is_nl a) eqn:Ea; [discriminate|].
+  destruct (is_blank_or_tab a).
+  - inversion E; subst. split; [reflexivity|exact H].
+  - destruct (split_blank s) as [[b' t']|]; [|discriminate]. inversion E; subst.
+    destruct (IH _ _ eq_refl H) as [H1 H2]. split; [cbn [nlfree]; rewrite Ea; exact H1|exact H2].
+Qed.
+
 Lemma nlfree_directive_parts (s e : string) :
   snd (directive_parts s) = Some e -> nlfree s = true -> nlfree e = true.
 Proof.
   unfold directive_parts. intros H Hs.
   pose proof (nlfree_before "//" s Hs) as Hb.
-  destruct (split_once " " (before "//" s)) as [[w r]|] eqn:E; [|discriminate].
-  eapply nlfree_split_once in E; [|exact Hb]. destruct E as [_ Hr].
+  destruct (split_blank (before "//" s)) as [[w r]|] eqn:E; [|discriminate].
+  eapply nlfree_split_blank in E; [|exact Hb]. destruct E as [_ Hr].
   cbn [snd] in H. destruct (String.eqb (trim r) ""); [discriminate|].
   inversion H; subst. apply nlfree_trim. exact Hr.
 Qed.
